@@ -536,6 +536,7 @@ func main() {
 				"shared2", "node:shared2", "dir/gsub", "dir/rsub", "./gnat", "node:rnat", "cyca", "node:cyca", "cycb", "node:cycb", "selfy", "node:selfy", "node:cyca", "flaky", "node:flaky", "flaky", "node:flaky",
 				// spellings that are NOT the registered name: a name is looked up as written (dot segments behind node: do not cancel the
 				// prefix, a trailing or doubled separator does not name the core module)
+				"node:node:xonly", "node:node:xonly", "node:node:util", "node:node:gnat",
 				"node:x/../gnat", "node:/../rnat", "node:x/../util", "node:x/../dir/rsub", "util/", "gnat//", "dir//rsub", "dir/x/../rsub", "node:util/", "node:./util", "xcore/", "node:xcore/."}
 			ncalls := 3 + r.Intn(7)
 			for i := 0; i < ncalls; i++ {
@@ -754,7 +755,14 @@ func main() {
 		coq := fmt.Sprintf("{| c_fs := %s; c_nat := {| n_registry := %s; n_global := %s; n_core := %s; n_loader_reqs := %s; n_loader_throws := [[102;108;97;107;121]] |}; c_calls := %s; c_events := %s; c_files := %s; c_evcounts := %s; c_counters := %s; c_loader_log := %s; c_native_runs := %s |}",
 			lib.List(fsCoq), zl(regNat), zl(globals), zl(cores), loaderReqsCoq, lib.List(callsCoq), lib.List(evCoq), lib.List(evFiles), lib.List(evCounts), lib.List(cntCoq), lib.List(logCoq), lib.List(runsCoq))
 		nontriv := len(files) >= 2
-		out.Add(coq, map[string]interface{}{"files": paths, "registry_natives": regNat, "calls": calls, "events": descEv, "counters": counts, "loader_calls": len(loaderLog)}, nontriv)
+		var caseTags []string
+		for _, cl := range calls {
+			if strings.HasPrefix(cl[2], "node:node:") {
+				caseTags = append(caseTags, "double-node-prefix")
+				break
+			}
+		}
+		out.Add(coq, map[string]interface{}{"files": paths, "registry_natives": regNat, "calls": calls, "events": descEv, "counters": counts, "loader_calls": len(loaderLog)}, nontriv, caseTags...)
 		out.Count("files", lib.SizeBucket(len(files)))
 		out.Count("calls", strconv.Itoa(len(calls)))
 		out.Count("events", lib.SizeBucket(len(logArr)))
